@@ -8,7 +8,12 @@ Semantic form (small JSON):
    'shanks': None | [nc] ints, 'nclosest': int, 'thr': [p, q], 'tmpl_dtype': 'float32'|'float64',
    'cols_dtype': 'int32'|'int64', 'st': [n_spikes] template ids, 'sc': None | [n_spikes] cluster ids,
    'scale': None | int (template_scaling keyword of TemplateModel; None = attribute absent),
-   'amps': absent | True (write amplitudes.npy)}"""
+   'amps': absent | True (write amplitudes.npy),
+   'extras': absent | list of BYSTANDER files written into the directory besides the files above (stage 6: the
+             environment axis).  Each is {'name': relative path (may contain one sub-directory), and one of
+             'npy': {'dtype', 'shape', 'data'} | 'text': str | 'hex': str}.  None of them is a file TemplateModel reads
+             for anything this property observes: the abstract dataset handed to the Coq model ignores them,
+   'dirform': absent | 'path' | 'str' | 'symlink' (how dir_path is handed to TemplateModel)}"""
 from fractions import Fraction
 
 
@@ -92,6 +97,121 @@ def files_of(sem):
         files['whitening_mat.npy'] = _spec('float64', [nc, nc], [float(v) for r in inv for v in r])
     return {'files': files, 'raw': None, 'text': {},
             'params': {'sample_rate': 100.0, 'n_channels_dat': nc, 'dtype': 'int16', 'offset': 0}}
+
+
+def write_extras(sem, dirpath):
+    """Write the bystander files of sem['extras'] (after vt.datasets.materialise wrote the dataset proper).  A name
+    that materialise already wrote is refused: a bystander never replaces a file of the dataset."""
+    import os
+    import numpy as np
+    from . import datasets as D
+    for x in sem.get('extras') or []:
+        path = os.path.join(dirpath, x['name'])
+        assert not os.path.exists(path), x['name']
+        os.makedirs(os.path.dirname(path), exist_ok=True)
+        if 'npy' in x:
+            with open(path, 'wb') as f:                        # a file object: np.save must not append '.npy'
+                np.save(f, D.spec_to_np(x['npy']))
+        elif 'text' in x:
+            with open(path, 'w', newline='') as f:
+                f.write(x['text'])
+        else:
+            with open(path, 'wb') as f:
+                f.write(bytes.fromhex(x['hex']))
+
+
+# names a KiloSort / phy directory (or its owner) really contains next to the files TemplateModel reads, and near-miss
+# spellings of the files it does read.  {kind: names}; the contents are drawn by gen_extras.
+EXTRA_NAMES = {
+    'ind': ['templates_ind.npy', 'templates_ind.npy', 'templates_ind.npy', 'template_inds.npy', 'template_ind.npy.bak',
+            'template_ind_old.npy', 'templates.waveformChannels.npy', 'Template_ind.npy', 'backup/template_ind.npy'],
+    'tmpl': ['templates_unw.npy', 'templates.npy.bak', 'templates_old.npy', 'template.npy', 'Templates.npy',
+             'old/templates.npy'],
+    'wm': ['whitening_mat_old.npy', 'whitening_matrix.npy', 'whitening_mat_inv.npy.bak', 'whitening_mat_dat.npy',
+           'Whitening_mat.npy', 'backup/whitening_mat.npy', 'backup/whitening_mat_inv.npy'],
+    'shank': ['channel_shank.npy', 'channel_shanks_old.npy', 'channels.shank.npy', 'channel_shanks.npy.bak',
+              'backup/channel_shanks.npy'],
+    'pos': ['channel_positions_old.npy', 'channel_position.npy', 'channel_pos.npy', 'channels.localCoordinate.npy',
+            'backup/channel_positions.npy'],
+    'cmap': ['channel_map_old.npy', 'channel_map_full.npy', 'channel_maps.npy', 'backup/channel_map.npy'],
+    'other': ['similar_templates.npy', 'cluster_group.tsv', 'cluster_KSLabel.tsv', 'cluster_Amplitude.tsv', 'phy.log',
+              'rez.mat', 'temp_wh.dat', 'amplitudes_old.npy', 'README.txt', '.phy/memcache.pkl'],
+}
+
+
+def gen_extra(rng, sem, kind, name=None, form=None):
+    """One bystander file of the given kind for the dataset sem.  The contents have the shape the look-alike would
+    need to be taken for the real file, and DIFFERENT values (so that reading it instead of / besides the real file
+    changes the records)."""
+    nc, ns, nt = sem['nc'], sem['ns'], sem['nt']
+    nloc = len(sem['templates'][0][0])
+    name = name or rng.choice(EXTRA_NAMES[kind])
+    if kind == 'ind':
+        form = form or rng.choice(['ks2', 'ks2', 'perm', 'minus', 'narrow'])
+        if form == 'ks2':                                       # what KiloSort2 writes: every row 0..n-1, as doubles
+            return {'name': name, 'npy': _spec('float64', [nt, nloc], [float(j) for _ in range(nt) for j in range(nloc)])}
+        if form == 'narrow' and nloc > 2:
+            return {'name': name, 'npy': _spec('int32', [nt, nloc - 1], [j for _ in range(nt) for j in range(nloc - 1)])}
+        rows = []
+        for _ in range(nt):
+            r = rng.sample(range(nc), nloc)
+            if form == 'minus':
+                r[rng.randrange(nloc)] = -1
+            rows += r
+        return {'name': name, 'npy': _spec(rng.choice(['int32', 'int64', 'uint32'] if form == 'perm' else ['int32', 'int64']),
+                                           [nt, nloc], rows)}
+    if kind == 'tmpl':
+        data = [float(-v + 1 + j) for t in sem['templates'] for row in t for j, v in enumerate(reversed(row))]
+        return {'name': name, 'npy': _spec('float32', [nt, ns, nloc], data)}
+    if kind == 'wm':
+        k = rng.choice([2, -1, 4])
+        anti = rng.random() < 0.5
+        return {'name': name, 'npy': _spec('float64', [nc, nc], [float(k * int((nc - 1 - i if anti else i) == j))
+                                                              for i in range(nc) for j in range(nc)])}
+    if kind == 'shank':
+        return {'name': name, 'npy': _spec('int32', [nc], [(i + 1) % 2 for i in range(nc)])}
+    if kind == 'pos':
+        return {'name': name, 'npy': _spec('float64', [nc, 2], [float(v) for p in reversed(sem['positions']) for v in (p[1], p[0])])}
+    if kind == 'cmap':
+        return {'name': name, 'npy': _spec('int32', [nc], list(range(nc - 1, -1, -1)))}
+    if kind == 'other':
+        if name == 'similar_templates.npy':
+            return {'name': name, 'npy': _spec('float32', [nt, nt], [float(int(i == j)) for i in range(nt) for j in range(nt)])}
+        if name == 'amplitudes_old.npy':
+            return {'name': name, 'npy': _spec('float64', [len(sem['st'])], [2.0] * len(sem['st']))}
+        if name.endswith('.tsv'):
+            col = name[len('cluster_'):-4]
+            val = (lambda i: '%d.5' % i) if col == 'Amplitude' else (lambda i: ['good', 'mua', 'noise'][i % 3])
+            return {'name': name, 'text': 'cluster_id\t%s\n' % col + ''.join('%d\t%s\n' % (i, val(i)) for i in range(nt))}
+        if name.endswith(('.log', '.txt')):
+            return {'name': name, 'text': 'template_ind.npy templates.npy channel_shanks.npy\n'}
+        return {'name': name, 'hex': '934e554d505900ff10deadbeef'}     # not a loadable array
+    raise ValueError(kind)
+
+
+def gen_extras(rng, sem, mode):
+    """The environment axis: 'none' | 'ks2' (templates_ind.npy as KiloSort2 writes it, plus what else such a
+    directory holds) | 'any' (1-4 bystanders of any kind, pairwise distinct names)."""
+    if mode == 'none':
+        return None
+    out = []
+    if mode == 'ks2':
+        out.append(gen_extra(rng, sem, 'ind', 'templates_ind.npy', 'ks2'))
+        for name in ('similar_templates.npy', 'cluster_KSLabel.tsv', 'cluster_group.tsv'):
+            if rng.random() < 0.5:
+                out.append(gen_extra(rng, sem, 'other', name))
+        if rng.random() < 0.3:
+            out.append(gen_extra(rng, sem, 'tmpl', 'templates_unw.npy'))
+    else:
+        kinds = sorted(EXTRA_NAMES)
+        for _ in range(rng.randint(1, 4)):
+            out.append(gen_extra(rng, sem, rng.choice(kinds + ['ind', 'ind', 'shank', 'wm'])))
+    seen, res = set(), []
+    for x in out:
+        if x['name'] not in seen:
+            seen.add(x['name'])
+            res.append(x)
+    return res
 
 
 def effective_wmi(sem):
